@@ -173,32 +173,35 @@ def law_refform(job):
             "der": {"lines": [], "toks": [A.tok(t) for t in dt], "refs": [], "dups": []}}
 
 
-def scripts_from(r):
-    out = []
-    for line in r.out.splitlines():
-        if line.startswith('"{'):
-            out.append(json.loads(json.loads(line)))
-    return out
+def scripts_from(r, n=None, seed=0):
+    """The scripts TLC printed; with n: a seeded sample of n of them (decoded only after sampling - the thorough
+    enumeration has millions of lines). Returns (scripts, number enumerated)."""
+    lines = [line for line in r.out.splitlines() if line.startswith('"{')]
+    total = len(lines)
+    if n is not None and total > n:
+        lines = gen.sample(lines, n, seed)
+    return [json.loads(json.loads(line)) for line in lines], total
 
 
 def run(tier, rep):
     q = tier == "quick"
     r = C.run_tlc("MCEnv", f"Env_{tier}.cfg", allow_violation=False, timeout=1800, heap="12g")
     rep.tlc(f"Env[{tier}]", r)
-    sc = scripts_from(r)
+    # a seeded sample of the enumeration is executed (quick: 30 000; thorough: 600 000 - the full enumeration of the
+    # thorough bound does not fit into the memory of this machine next to TLC)
+    sc, enumerated = scripts_from(r, 30000 if q else 600000, C.SEED)
+    r.out = ""
     rs = C.run_tlc("MCEnv", "Env_sim.cfg", simulate=f"num={400 if q else 6000}", depth=8, seed=C.SEED + 5, workers=1,
                    allow_violation=False, timeout=2400)
     rep.tlc("Env[simulate, all classes]", rs)
-    sim = scripts_from(rs)
+    sim, _n = scripts_from(rs)
     if len(sc) < 1000 or len(sim) < 200:
         raise C.MachineryError(f"too few scripts: {len(sc)} exhaustive, {len(sim)} simulated")
-    if q:
-        sc = gen.sample(sc, 30000, C.SEED)
     jobs = [(s, CFGS[k % 2], "MCClassesQ") for k, s in enumerate(sc)] + [(s, CFGS[k % 2], "MCClasses") for k, s in enumerate(sim)]
     # executed and validated in slices (the thorough tier has millions of scripts: bounded memory)
     verdicts, ntr, acc = [], 0, {"generated": 0, "distinct": 0, "shards": 0, "tlc_wall": 0.0}
-    for lo in range(0, len(jobs), 150000):
-        part = C.pmap(run_script, jobs[lo: lo + 150000], chunk=200)
+    for lo in range(0, len(jobs), 50000):
+        part = C.pmap(run_script, jobs[lo: lo + 50000], chunk=200)
         vs, st = C.validate_traces("EnvTrace", part, shard=4000, heap="8g")
         verdicts += vs
         ntr += len(part)
@@ -262,7 +265,7 @@ def run(tier, rep):
     rep.cov["evaluations"] = len(traces) + len(t2)
     rep.cov["distinct_nontrivial"] = len(traces) + held
     rep.cov["guard_skips"] = skips
-    rep.cov["bounds"] = {"scripts_exhaustive": len(sc), "scripts_simulated": len(sim), "triples": len(t2), "triples_compared": held}
+    rep.cov["bounds"] = {"scripts_enumerated": enumerated, "scripts_exhaustive": len(sc), "scripts_simulated": len(sim), "triples": len(t2), "triples_compared": held}
     rep.cov["rule"] = ("case = one definition script in one env history (each with >= 1 definition and >= 1 item in D), or one "
                        "(text, destination, title, link|image) triple; all distinct; triples are non-trivial when at least one form yields a link")
     rep.cov["exhaustive"] = False
